@@ -623,8 +623,8 @@ theorem ref_backend_text_to_proof :
 
 /-- **src/gf/ref/gfx/fp2.c, straight-line functions, by translation**: `SqiGen.Fp2Ref` (tools/translate/fp2ref.py, re-extracted on every
     run) equals the models `fp2_*` of `SqiModel.Gf` that the generic GF(p²) theorems above are about, for EVERY operation record
-    (definitional).  Not translated: `fp2_sqrt`, `fp2_batched_inv`, `fp2_pow_vartime` (loops / byte buffer / `~` masks), `fp2_encode`,
-    `fp2_decode`: hand models tied by correspondence. -/
+    (definitional, plus one lemma on `-((uint32_t)buf[0] & 1)` for the sign normalisation of `fp2_sqrt`).  Not translated:
+    `fp2_batched_inv`, `fp2_pow_vartime` (loops over arrays), `fp2_encode`, `fp2_decode`: hand models tied by correspondence. -/
 theorem fp2_straightline_generated_eq_model {α : Type} (O : FpOps α) :
     (∀ x v, SqiGen.Fp2Ref.fp2_set_small O x v = fp2_set_small O v) ∧
     (∀ x, SqiGen.Fp2Ref.fp2_set_one O x = fp2_set_one O) ∧
@@ -642,13 +642,14 @@ theorem fp2_straightline_generated_eq_model {α : Type} (O : FpOps α) :
     (∀ x y z, SqiGen.Fp2Ref.fp2_mul O x y z = fp2_mul O y z) ∧
     (∀ x y, SqiGen.Fp2Ref.fp2_sqr O x y = fp2_sqr O y) ∧
     (∀ x, SqiGen.Fp2Ref.fp2_inv O x = fp2_inv O x) ∧
-    (∀ x, SqiGen.Fp2Ref.fp2_is_square O x = fp2_is_square O x) :=
+    (∀ x, SqiGen.Fp2Ref.fp2_is_square O x = fp2_is_square O x) ∧
+    (∀ x, SqiGen.Fp2Ref.fp2_sqrt O x = fp2_sqrt O x) :=
   ⟨SqiProofs.Fp2RefGen.fp2_set_small_eq O, SqiProofs.Fp2RefGen.fp2_set_one_eq O, SqiProofs.Fp2RefGen.fp2_set_zero_eq O,
    SqiProofs.Fp2RefGen.fp2_is_zero_eq O, SqiProofs.Fp2RefGen.fp2_is_equal_eq O, SqiProofs.Fp2RefGen.fp2_is_one_eq O,
    SqiProofs.Fp2RefGen.fp2_select_eq O, SqiProofs.Fp2RefGen.fp2_cswap_eq O, SqiProofs.Fp2RefGen.fp2_copy_eq O,
    SqiProofs.Fp2RefGen.fp2_half_eq O, SqiProofs.Fp2RefGen.fp2_add_eq O, SqiProofs.Fp2RefGen.fp2_sub_eq O,
    SqiProofs.Fp2RefGen.fp2_neg_eq O, SqiProofs.Fp2RefGen.fp2_mul_eq O, SqiProofs.Fp2RefGen.fp2_sqr_eq O,
-   SqiProofs.Fp2RefGen.fp2_inv_eq O, SqiProofs.Fp2RefGen.fp2_is_square_eq O⟩
+   SqiProofs.Fp2RefGen.fp2_inv_eq O, SqiProofs.Fp2RefGen.fp2_is_square_eq O, SqiProofs.Fp2RefGen.fp2_sqrt_eq O⟩
 
 /-! ## x86 ("broadwell") back-end, value-level model `SqiModel.GfX86`
 
